@@ -300,6 +300,9 @@ def r_heap_guard(ctx):
                 if cnt[0] == 'v' and isinstance(cnt[2], tuple) and any(
                         f.defs[d].kind == 'aug' and isinstance(f.defs[d].extra, ast.Mult) for d in cnt[2]):
                     ok = True
+                # math.prod over the per-site counts: an exact (arbitrary-precision) product
+                if is_call(cnt, 'math.prod') and len(cnt[2]) == 1 and cnt[2][0][0] == 'comp' and is_call(cnt[2][0][2], 'builtins.len'):
+                    ok = True
         if not ok:
             # is the loop at least under *some* comparison with heap_size?  then the count is merely in another form
             some = any(any(x == ('v', 'heap_size', 'P') for x in walk_term(a)) for a, p_ in ctx.conds(f, nd))
@@ -618,6 +621,41 @@ def r_cand(ctx):
                             allok = allok and has_step
                     okflag = allok and nb > 0
         if not okflag:
+            # path-sensitive form (flags that travel through tuples / helper results): no path that leaves the tail loop
+            # on a non-arc symbol can reach the append, judged by the values that path itself assigns
+            from ..ctx import paths_between, path_feasible
+            dom = f.dominators()
+            stepn = {s.node.id for s in steps}
+            cands = [lp for lp in f.nodes if lp.kind == 'for' and lp.id in dom[nd.id] and lp.id not in nd.loops and
+                     any(lp.id in f.nodes[s].loops for s in stepn)]
+            if cands:
+                lp = max(cands, key=lambda x: x.id)
+                body = {n.id for n in f.nodes if lp.id in n.loops}
+                decided, reach = True, False
+                for pth, k in ctx.body_paths(f, lp.id):
+                    has_step = any(n in stepn for n in pth)
+                    if has_step and k == 'back':
+                        continue
+                    if has_step or k != 'break':
+                        decided = False          # a step path that leaves, or a non-arc path that stays in the loop
+                        continue
+                    outs = [s for s in f.nodes[pth[-1]].succ if s not in body]
+                    for o in outs:
+                        for post in paths_between(f, o, nd.id, avoid=body | {lp.id}):
+                            fe = path_feasible(f, pth + post, given=body)
+                            if fe is None:
+                                decided = False
+                            elif fe:
+                                reach = True
+                if decided and not reach:
+                    okflag = True
+                elif reach:
+                    run.refute('R-CAND', f, '%s:appended-only-when-tail-walk-stayed-on-arcs' % tag, nd.lineno,
+                               'a path that leaves the tail walk of the %s candidate on a symbol without arc (break at a non-member '
+                               'symbol) still reaches the append with every test on the way satisfied: candidates that leave the '
+                               'graph are returned' % tag, inputs='chunks whose tail is not a walk after the tentative edit')
+                    continue
+        if not okflag:
             # refute only with a witness: the append depends on nothing the tail walk computes (no condition at all besides
             # has_indel), or its flag is never set to False anywhere; any other shape is outside what this rule decides
             dep = [a for a, pol in conds if a != ('v', 'has_indel', 'P') and a[0] != 'c']
@@ -914,7 +952,13 @@ def r_sites(ctx):
                 continue
             recv = d.extra.value
             if not isinstance(recv, ast.Subscript):
-                continue            # a plain shared collection is judged below through the conditions
+                # a collection created afresh inside the loop over the error sites is that site's own collection
+                per_site = False
+                if isinstance(recv, ast.Name) and nd.loops:
+                    made = [f.defs[i] for i in f.reaching(nd.id, recv.id) if f.defs[i].kind == 'assign']
+                    per_site = bool(made) and all(nd.loops[0] in f.nodes[x.node].loops for x in made)
+                if not per_site:
+                    continue        # a plain shared collection is judged below through the conditions
             n += 1
             shared = []
             for atom, pol in ctx.conds(f, nd):
@@ -1014,6 +1058,39 @@ def r_recomb(ctx):
         body = {n.id for n in f.nodes if nd.id in n.loops}
         inner = [n for n in f.nodes if n.id in body and n.kind == 'for']
         if not inner:
+            # comprehension form:  ''.join(s + g for s, g in zip(segments, fragments)) + segments[-1]
+            # (zip stops after the last fragment; there is one fragment per site, i.e. one less than segments)
+            frag_iter = ('iter', it, nd.id)
+            joined = tail = None
+            for n in f.nodes:
+                if n.id not in body or n.kind != 'stmt' or not isinstance(n.stmt, (ast.Assign, ast.AugAssign)):
+                    continue
+                t = f.term(n.stmt.value, n)
+                for x in walk_term(t):
+                    if x[0] == 'call' and x[1][0] == 'attr' and x[1][1] == ('c', '') and x[1][2] == 'join' and len(x[2]) == 1 \
+                            and x[2][0][0] == 'comp':
+                        joined = (n, x[2][0])
+                    if x[0] == 'sub' and x[1][0] == 'v' and x[1][1] == seg and x[2] == ('c', -1):
+                        tail = n
+            if joined is None:
+                continue
+            found += 1
+            n_, comp = joined
+            item_, gens = comp[2], comp[3]
+            gen = gens[0][0] if len(gens) == 1 and not gens[0][1] else None
+            okz = gen is not None and is_call(gen, 'builtins.zip') and len(gen[2]) == 2 and gen[2][0][0] == 'v' and \
+                gen[2][0][1] == seg and gen[2][1] == frag_iter
+            run.check(okz, 'R-RECOMB', f, 'recombination:range(len(segments)-1)', n_.lineno,
+                      'one fragment between consecutive segments (zip(segments, fragments))',
+                      'the candidate is joined over %s, not zip(segments, fragments of this combination)' % show(gen)[:70] if gen else
+                      'the candidate is joined over several generators', inputs='strands with detected errors')
+            okb = okz and item_[0] == 'bin' and item_[1] == '+' and item_[2][0] == 'iter' and item_[2][1] == gen[2][0] and \
+                item_[3][0] == 'iter' and item_[3][1] == frag_iter
+            run.check(okb, 'R-RECOMB', f, 'recombination:segment-then-fragment', n_.lineno, 'segment + fragment of the same position',
+                      'the joined pieces are %s, not segment + fragment' % show(item_)[:70], inputs='strands with detected errors')
+            run.check(tail is not None, 'R-RECOMB', f, 'recombination:last-segment-appended', nd.lineno,
+                      'segments[-1] is appended to the joined candidate',
+                      'the last segment is not appended to the joined candidate: every candidate loses its tail', inputs='every strand')
             continue
         found += 1
         lp = inner[0]
@@ -1050,17 +1127,29 @@ def r_recomb(ctx):
                   inputs='every strand')
     run.floor('R-RECOMB', 'recombination loops', found, 1)
     # (3) count starts at 1 and is multiplied by len(fragments) per site
-    okc = False
+    okc, witness = False, None
     for d in f.defs:
         if d.kind == 'aug' and isinstance(d.extra, ast.Mult) and d.value is not None:
             nd = f.nodes[d.node]
             init = [f.defs[i] for i in f.reaching(nd.loops[-1] if nd.loops else nd.id, d.name) if f.defs[i].kind == 'assign']
             its = [TermBuilder(f, x.node).def_term(x.id) for x in init]
             t = f.term(d.value, nd)
-            okc = bool(its) and all(i == ('c', 1) for i in its) and is_call(t, 'builtins.len')
-    run.check(okc, 'R-RECOMB', f, 'count=product-of-site-counts-from-1', f.node.lineno, 'count starts at 1, count *= len(fragments)',
-              'the candidate count does not start at 1 / is not multiplied by the per-site candidate counts: a clean strand '
-              '(empty product) must give count 1 so that it reaches the product path', inputs='clean strands')
+            if is_call(t, 'builtins.len'):
+                okc = bool(its) and all(i == ('c', 1) for i in its)
+                bad = [i for i in its if i[0] == 'c' and i != ('c', 1)]
+                if bad:
+                    witness = 'the candidate count starts at %s, not 1' % show(bad[0])
+        if d.kind == 'assign' and d.value is not None and not okc:
+            # count = math.prod(len(x) for x in sets): the empty product is 1
+            t = TermBuilder(f, d.node).def_term(d.id)
+            if is_call(t, 'math.prod') and len(t[2]) == 1 and t[2][0][0] == 'comp' and is_call(t[2][0][2], 'builtins.len') \
+                    and not t[3]:
+                okc = True
+    from .misc2 import _tri
+    _tri(run, okc, witness is not None, 'R-RECOMB', f, 'count=product-of-site-counts-from-1', f.node.lineno,
+         'count starts at 1 and is the product of the per-site candidate counts',
+         '%s: a clean strand (empty product) must give count 1 so that it reaches the product path' % witness,
+         inputs='clean strands')
 
 
 def r_tile_clamp(ctx):
